@@ -64,7 +64,13 @@ type reqSpec struct {
 	Method string   `json:"method"`
 	Conn   []string `json:"connection_lines"`
 	Body   string   `json:"body,omitempty"`
+	// Timeout: how the handler answers through the timeout path (0: it does not)
+	Timeout int `json:"timeout_mode,omitempty"`
 }
+
+var toModes = []string{"", "ctx.TimeoutError", "ctx.TimeoutErrorWithCode(504)", "ctx.TimeoutErrorWithResponse(503)",
+	"ctx.TimeoutErrorWithResponse(503 + SetConnectionClose)", "TimeoutHandler(late inner handler)"}
+var toStatus = []int{200, 408, 504, 503, 503, 408}
 
 type srvCase struct {
 	Reqs   []reqSpec `json:"reqs"`
@@ -107,6 +113,9 @@ func genSrvCase(r *rand.Rand) srvCase {
 			q.Conn = []string{connVals[r.Intn(len(connVals))]}
 		default:
 			q.Conn = []string{connVals[r.Intn(len(connVals))], connVals[r.Intn(len(connVals))]}
+		}
+		if q.Method != "HEAD" && r.Intn(6) == 0 { // (HEAD + timeout is C16's subject)
+			q.Timeout = 1 + r.Intn(len(toModes)-1)
 		}
 		c.Reqs = append(c.Reqs, q)
 	}
@@ -180,6 +189,11 @@ func runSrvCase(c *srvCase) srvObs {
 	script, msgEnds, headEnds := c.script()
 	conn := netx.NewScripted(script, fragPlan(c.Frag, msgEnds, headEnds))
 	var o srvObs
+	// the inner handler of the TimeoutHandler action is held until ServeConn has returned: it is
+	// certainly late, and it touches neither ctx nor the connection
+	gate := make(chan struct{})
+	defer close(gate)
+	late := fasthttp.TimeoutHandler(func(*fasthttp.RequestCtx) { <-gate }, time.Millisecond, "late")
 	s := &fasthttp.Server{
 		DisableKeepalive:   c.DK,
 		MaxRequestsPerConn: c.MaxReq,
@@ -203,6 +217,26 @@ func runSrvCase(c *srvCase) srvObs {
 				}
 			}
 			ctx.WriteString("ok")
+			var idx int
+			if _, err := fmt.Sscanf(p, "/r%d", &idx); err != nil || idx < 0 || idx >= len(c.Reqs) {
+				return
+			}
+			switch c.Reqs[idx].Timeout {
+			case 1:
+				ctx.TimeoutError("timeout")
+			case 2:
+				ctx.TimeoutErrorWithCode("timeout", 504)
+			case 3, 4:
+				var resp fasthttp.Response
+				resp.SetStatusCode(503)
+				resp.SetBodyString("timeout")
+				if c.Reqs[idx].Timeout == 4 {
+					resp.SetConnectionClose()
+				}
+				ctx.TimeoutErrorWithResponse(&resp)
+			case 5:
+				late(ctx)
+			}
 		},
 	}
 	func() {
@@ -266,7 +300,18 @@ func (c *srvCase) class() string {
 	if c.HCIdx >= 0 {
 		hc = hcModes[c.HCMode]
 	}
-	return fmt.Sprintf("n=%d dk=%v max=%d rmu=%v frag=%s hc=%s %v", len(c.Reqs), c.DK, c.MaxReq, c.RMU, c.Frag, hc, l)
+	to := map[int]bool{}
+	for _, q := range c.Reqs {
+		if q.Timeout != 0 {
+			to[q.Timeout] = true
+		}
+	}
+	var tl []int
+	for k := range to {
+		tl = append(tl, k)
+	}
+	sort.Ints(tl)
+	return fmt.Sprintf("n=%d dk=%v max=%d rmu=%v frag=%s hc=%s to=%v %v", len(c.Reqs), c.DK, c.MaxReq, c.RMU, c.Frag, hc, tl, l)
 }
 
 // batch collects a history's event counts and hands them to mon in one go.
@@ -331,7 +376,7 @@ func judgeSrv(r0 *mon.Run, i int, c *srvCase, o *srvObs) {
 	// response j answers request j: valid scripts, one handler call per response, in order.
 	mapped := len(o.Calls) == k
 	for j := 0; mapped && j < k; j++ {
-		if o.Calls[j] != fmt.Sprintf("/r%d", j) || finals[j].Status != 200 {
+		if o.Calls[j] != fmt.Sprintf("/r%d", j) || finals[j].Status != toStatus[c.Reqs[j].Timeout] {
 			mapped = false
 		}
 	}
@@ -388,13 +433,21 @@ func judgeSrv(r0 *mon.Run, i int, c *srvCase, o *srvObs) {
 		if c.MaxReq > 0 && j+1 >= c.MaxReq {
 			reasons = append(reasons, "MaxRequestsPerConn")
 		}
-		if c.HCIdx == j && c.HCMode >= 1 && c.HCMode <= 4 {
+		// a response built before a Timeout* call is replaced by the timeout response, so a close set on
+		// it is not "the handler set it"; a close set on the response handed to TimeoutErrorWithResponse is.
+		if (c.HCIdx == j && c.HCMode >= 1 && c.HCMode <= 4 && q.Timeout == 0) || q.Timeout == 4 {
 			reasons = append(reasons, "handler")
+		}
+		if q.Timeout != 0 {
+			r.Event("timeout_responses_judged", 1)
 		}
 		if len(reasons) > 0 {
 			r.Event("must_close_checked", 1)
 			if !hasClose {
 				key := "must-close-without-header:" + strings.Join(reasons, "+")
+				if q.Timeout != 0 {
+					key = "timeout-path-" + key
+				}
 				if len(reasons) == 1 && reasons[0] == "request-close" {
 					// narrow classes: which spelling of the request's close option was missed
 					exactIdx := -1
@@ -419,7 +472,11 @@ func judgeSrv(r0 *mon.Run, i int, c *srvCase, o *srvObs) {
 		if !q.V11 && !hasClose {
 			r.Event("http10_keepalive_checked", 1)
 			if !hasKA {
-				r.Violation(i, "http10-keepalive-without-header", fmt.Sprintf("HTTP/1.0 request %d is kept alive but %s lacks Connection: keep-alive", j, desc), payload(map[string]any{"response": j}))
+				key := "http10-keepalive-without-header"
+				if q.Timeout != 0 {
+					key = "timeout-path-" + key
+				}
+				r.Violation(i, key, fmt.Sprintf("HTTP/1.0 request %d is kept alive but %s lacks Connection: keep-alive", j, desc), payload(map[string]any{"response": j}))
 			}
 		}
 	}
@@ -591,6 +648,9 @@ type cliStep struct {
 	V10      bool     `json:"response_http10"`
 	Conn     []string `json:"response_connection_lines"`
 	Chunked  bool     `json:"response_chunked"`
+	// CloseDelimited: no Content-Length, not chunked; the responder ends the body by closing the socket
+	// (HTTP/1.1 with Connection: close, or HTTP/1.0 without keep-alive)
+	CloseDelimited bool `json:"response_body_delimited_by_close"`
 }
 
 type cliCase struct {
@@ -607,13 +667,51 @@ func genCliCase(r *rand.Rand) cliCase {
 	n := 2 + r.Intn(4)
 	var c cliCase
 	for i := 0; i < n; i++ {
-		c.Steps = append(c.Steps, cliStep{Post: r.Intn(4) == 0, ReqClose: r.Intn(10) == 0, V10: r.Intn(8) == 0,
-			Conn: respConnVals[r.Intn(len(respConnVals))], Chunked: r.Intn(5) == 0})
+		st := cliStep{Post: r.Intn(4) == 0, ReqClose: r.Intn(10) == 0, V10: r.Intn(8) == 0,
+			Conn: respConnVals[r.Intn(len(respConnVals))], Chunked: r.Intn(5) == 0}
+		if k := len(c.Steps); k > 0 && c.Steps[k-1].CloseDelimited {
+			// the follow-up is a POST: no idempotent retry can hide a write to the dead connection
+			st.Post, st.ReqClose = true, false
+		}
+		if r.Intn(5) == 0 {
+			st.CloseDelimited, st.Chunked = true, false
+			if st.V10 {
+				st.Conn = [][]string{nil, {"close"}}[r.Intn(2)]
+			} else {
+				st.Conn = [][]string{{"close"}, {"close"}, {"Close"}, {"keep-alive, close"}}[r.Intn(4)]
+			}
+		}
+		c.Steps = append(c.Steps, st)
+	}
+	if c.Steps[len(c.Steps)-1].CloseDelimited {
+		c.Steps = append(c.Steps, cliStep{Post: true})
 	}
 	return c
 }
 
+// saidClose: the response announces that the connection ends with it.
+func (st *cliStep) saidClose() bool { return st.CloseDelimited || optionIn(st.Conn, "close") }
+
+// stepConn is the client-side end handed to HostClient: it notes during which step each Write happens
+// (whether or not the write succeeds).
+type stepConn struct {
+	net.Conn
+	rc  *rawConn
+	cur *atomic.Int32
+}
+
+func (c *stepConn) Write(p []byte) (int, error) {
+	st := int(c.cur.Load())
+	c.rc.mu.Lock()
+	if n := len(c.rc.writeSteps); n == 0 || c.rc.writeSteps[n-1] != st {
+		c.rc.writeSteps = append(c.rc.writeSteps, st)
+	}
+	c.rc.mu.Unlock()
+	return c.Conn.Write(p)
+}
+
 type rawConn struct {
+	writeSteps []int // steps during which the client wrote to this connection
 	id       int
 	srv, cli net.Conn
 	mu       sync.Mutex
@@ -643,7 +741,7 @@ func serveRaw(rc *rawConn, c *cliCase, wg *sync.WaitGroup) {
 			st := c.Steps[step]
 			rc.mu.Lock()
 			rc.steps = append(rc.steps, step)
-			if optionIn(st.Conn, "close") && rc.saidAt < 0 {
+			if st.saidClose() && rc.saidAt < 0 {
 				rc.saidAt = len(rc.steps) - 1
 			}
 			rc.mu.Unlock()
@@ -657,6 +755,12 @@ func serveRaw(rc *rawConn, c *cliCase, wg *sync.WaitGroup) {
 				fmt.Fprintf(&b, "Connection: %s\r\n", v)
 			}
 			body := fmt.Sprintf("answer-%d", step)
+			if st.CloseDelimited {
+				fmt.Fprintf(&b, "\r\n%s", body)
+				rc.srv.Write(b.Bytes()) //nolint:errcheck
+				rc.srv.Close()          // the close IS the end of the body
+				return
+			}
 			if st.Chunked && !st.V10 {
 				fmt.Fprintf(&b, "Transfer-Encoding: chunked\r\n\r\n%x\r\n%s\r\n0\r\n\r\n", len(body), body)
 			} else {
